@@ -11,4 +11,30 @@ META = {
    note="Trusted: S1 mathematical integers (int64 overflow not modelled), S2 float32/float64 as reals, S3 arrays by value, S4 numba "
         "code = its Python source, the small model of list comprehension / nb.typed.List, SMT solvers. Not decided: float rounding at "
         "the cut, annotators with >= 32767 units (outside requires)."),
+ "C01": dict(
+   technique="contract-based deductive verification of Continuum.get_best_alignment and its callees (candidate kernel, build_A, array "
+             "encoding, Continuum observers, alignment constructors) over abstract views of the sorted containers and an assumed "
+             "contract of the MIP solver; exactly-one-cover derived by induction lemmas on the ghost dot product",
+   level="All obligations of the 18 functions in the cone are discharged: every returned unitary alignment has one slot per annotator "
+         "holding one of that annotator's own units or None (P1), at least one real unit (P2), and every unit of the continuum occurs in "
+         "exactly one of them (P3), on the CBC exit and on both GLPK exits, for unlabelled units too.",
+   note="Assumed: the solver contract (returns a feasible 0/1 optimum or reports failure), numpy where / gather, sortedcontainers, S1-S4. "
+        "Not machine-checked: feasibility of the program (so that the solver cannot report infeasible), see evidence.not_decided."),
+ "C02": dict(
+   technique="contract-based deductive verification: the program handed to the solver is min CD.x s.t. exact cover with CD the candidate "
+             "disorders proved in C07; result.disorder is the objective of an optimal feasible vector divided by the mean number of units",
+   level="Obligations discharged for all inputs: objective coefficients are the kernel's candidate disorders, the solution is feasible and "
+         "optimal among all feasible 0/1 vectors (solver model), the reported disorder is the sum of the chosen candidates' disorders over "
+         "x-bar, each unitary alignment carries its candidate's disorder; candidates = exactly those under the cut (C07).",
+   note="Assumed: solver optimality; pen-and-paper: lifting of the pruning lemma to whole partitions and the support-sum identity."),
+ "C08": dict(
+   technique="contract-based deductive verification: the CBC path and the GLPK paths (after ImportError or SolverError) are separate paths of the "
+             "symbolic execution through the same postconditions; the cvxpy expression trees are translated to row-wise constraints",
+   level="Both exits of get_best_alignment and get_best_soft_alignment discharge the same partition / cover, feasibility and optimality "
+         "clauses, so the back ends are handed the same mathematical program ([A@x == 1] vs [1 <= A@x, A@x <= 1]; [A@x >= 1] twice).",
+   note="Assumed: the same solver contract for CBC and GLPK_MI (two correct solvers return optima of equal value)."),
+ "C11": dict(
+   technique="contract-based deductive verification of get_best_soft_alignment (same chain as C01 with the cover program)",
+   level="Every unit occurs at least once, unitary alignments are well formed over the continuum's own units, the solution is optimal "
+         "among covers made of candidates.", note="As C01 / C02."),
 }
